@@ -42,6 +42,34 @@ def run(rep, tier, seed):
         s += ["drop_all", end] if end != "forget" else ["forget"]
         s += ["mount 1 0 lossy", "status_flags", "unmount"]
         scripts.append(s); metas.append((b0, end))
+    # deterministic family: on a cleanly closed volume of every FAT width the FIRST change of the second session is each kind of
+    # structural change in turn (for truncate: every position class - inside / at the end of the last cluster, which frees nothing,
+    # inside an earlier cluster, at 0), the session is then abandoned or unmounted
+    widths = [c for c in confs if c[0] in ("fat12-small", "fat16-min", "fat32-min")]
+    for conf in widths:
+        label, size, fmt = conf
+        toks = fmt.split()
+        cl = (512 if toks[1] == "-" else int(toks[1])) if toks[3] == "-" else int(toks[3])
+        off = 65 if label.startswith("fat32") else 37
+        fpath = sessions.hexs("two and a half clusters.bin")
+        firsts = [["open_file 0 %s 800" % fpath, "seek 800 start %d" % pos, "truncate 800", "drop_file 800"]
+                  for pos in (2 * cl + 1, 2 * cl + cl // 2, 3 * cl - 1, cl + 1, 2 * cl, cl, 1, 0)]
+        firsts += [["open_file 0 %s 800" % fpath, "write 800 %s" % sessions.hexs(b"in-place"), "drop_file 800"],
+                   ["open_file 0 %s 800" % fpath, "seek 800 end 0", "write_pat 800 %d 4" % (cl // 2 - 1), "flush 800"],
+                   ["open_file 0 %s 800" % fpath, "seek 800 end 0", "write_pat 800 %d 4" % cl, "flush 800"],
+                   ["remove 0 %s" % fpath],
+                   ["rename 0 %s 0 %s" % (fpath, sessions.hexs("renamed in second session.x"))],
+                   ["create_dir 0 %s 0" % sessions.hexs("dir made in second session")],
+                   ["create_file 0 %s 801" % sessions.hexs("empty made in second session"), "drop_file 801"]]
+        for k, first in enumerate(firsts):
+            end = ("forget", "unmount", "dropfs")[k % 3] if tier == "quick" else None
+            for e in ([end] if end else ["forget", "unmount", "dropfs"]):
+                s = ["dev %d 0" % size, "wlog 0", fmt, "pages", "wlog 1", "poke %d %02x" % (off, 0), "mount 1 0 lossy",
+                     "create_file 0 %s 700" % fpath, "write_pat 700 %d 9" % (2 * cl + cl // 2), "drop_file 700", "drop_all", "unmount",
+                     "mount 1 0 lossy"] + first
+                s += ["drop_all", e] if e != "forget" else ["forget"]
+                s += ["mount 1 0 lossy", "status_flags", "unmount"]
+                scripts.append(s); metas.append((0, e))
     judged = sessions.run_judged(scripts, flags=("tree", "regions", "info"), shards=16)
     boundaries = 0
     for jd, (b0, end) in zip(judged, metas):
